@@ -61,6 +61,20 @@ def nodeId (name : String) : Nat := (String.ofList (name.toList.drop 1)).toNat?.
 def defnCode (t : MRDefn) : Nat :=
   (t.pform.id * 100 + (match t.start with | none => 0 | some q => q.num.toNat + 1)) * 4 + (if t.range_type == ">" then 1 else if t.range_type == ">=" then 2 else 3)
 
+/-- a definition handed to spline(): {"mod":bool,"name":str,"params":[rat],"start":{"rt":str,"start":rat},"next":inst|null} -/
+partial def parseInstS (j : Json) : Except String PInstS := do
+  let params ← (← getArr j "params").mapM fun x => do
+    match x with
+    | Json.str t => parseRat t
+    | _ => throw "parameter must be a rational string"
+  let o ← j.getObjVal? "start"
+  let st : StartRec := { range_type := ← getStr o "rt", start := ← getRat o "start" }
+  let nx ← match j.getObjVal? "next" with
+    | .ok Json.null => pure none
+    | .ok o => do pure (some (← parseInstS o))
+    | .error _ => pure none
+  return { isModifier := ← getBool j "mod", name := ← getStr j "name", parameters := params, start := st, next := nx }
+
 def handleGen (op : String) (j : Json) : Except String Json := do
   match op with
   | "pair_species" =>
@@ -103,6 +117,27 @@ def handleGen (op : String) (j : Json) : Except String Json := do
       let sup := fun (s k : String) => (s == "Variables" || s == "") && ini.vars.any (fun p => p.1 == Atsim.norm k)
       return Json.mkObj [("has", arrJ (qs.map fun q => Json.bool (raw_has_option Atsim.strip sup ini.sections "Variables" q.1 q.2))),
                          ("xform", arrJ (qs.map fun q => Json.str (raw_optionxform Atsim.strip q.2)))]
+  | "spline_modifier" =>
+    -- _modifiers.spline on argument definitions; the form builder names what it is handed (its "id" parameter, whether it still has a next part, whether its start was
+    -- made minus infinity), the spline factories check their parameters as the real ones do and record what they were handed
+    let forms ← (← getArr j "forms").mapM parseInstS
+    let negInf : Rat := -1000000
+    let idOf := fun (p : PInstS) => (p.parameters.headD 0).num.toNat
+    let mkFn := fun (p : PInstS) => (⟨idOf p * 4 + (if p.next.isSome then 2 else 0) + (if p.start.start == negInf && p.start.range_type == ">" then 1 else 0)⟩ : FnObj2)
+    let enc := fun (q : Rat) => (q * 1000).num.toNat
+    let build := fun (f : SplFactory) (d a : SplPoint) (mid : PInstS) =>
+      if f.spline_keyword == "exp_spline" then
+        (if mid.parameters.isEmpty then (.ok ⟨(((1 * 1000 + d.fn.id) * 100000 + enc d.r) * 1000 + a.fn.id) * 100000 + enc a.r⟩ : Except SplBuildErr SplCore) else .error .config)
+      else
+        match mid.parameters with
+        | [rm] => if d.r < rm && rm < a.r then .ok ⟨((((2 * 1000 + d.fn.id) * 100000 + enc d.r) * 1000 + a.fn.id) * 100000 + enc a.r) * 100000 + enc rm⟩ else .error .config
+        | _ => .error .config
+    match spline_modifier negInf mkFn build (fun c => ⟨c⟩) forms () with
+    | .ok o => return natJ o.core.id
+    | .error e => return Json.str (match e with
+        | .notOneArgument => "notOneArgument" | .onlyOne => "onlyOne" | .middleIsModifier => "middleIsModifier" | .unknownSplineType => "unknownSplineType"
+        | .onlyTwo => "onlyTwo" | .moreThanThree => "moreThanThree" | .firstNotBelowSecond => "firstNotBelowSecond" | .secondNotBelowThird => "secondNotBelowThird"
+        | .cannotJoin => "cannotJoin" | .needsPackage => "needsPackage" | .config => "config" | .indexError => "indexError")
   | "list_items" =>
     -- _query_actions._list_items (with parsed_sections / orphan_sections) on a file given as lines (read by the model's reader): the labels and raw values, in order
     let lines ← (← getArr j "lines").mapM parseLine
